@@ -474,6 +474,20 @@ pub fn property() -> Property {
           unary(&parse(&c.a), &exps, st)
         },
       ),
+      // every element of [2^128, p): the only values that do not fit 128 bits
+      enum_sub(
+        "band_above_2_128",
+        |_| 12451,
+        |_, i: u64| Pair { a: ((BigUint::one() << 128usize) + BigUint::from(i)).to_string(), b: String::new() },
+        |c: &Pair, st: &mut Stats| {
+          let a = parse(&c.a);
+          let r = unary(&a, &[b(2), b(3), p() - 2u32], st);
+          st.nontrivial(&c.a);
+          r?;
+          binary(&a, &(p() - b(1)), st)?;
+          binary(&a, &a, st)
+        },
+      ),
       prop_sub("generated_ops", 50_000, 3_000_000, uni_strat, uni_oracle),
       prop_sub("decode", 60_000, 3_000_000, dec_strat, dec_oracle),
       crate::fuzzentry::fuzz_sub("fuzzbytes_field", "field", "C07", 20000, 400000),
